@@ -141,6 +141,49 @@ func (c *Chain) Disconnect() *Block {
 	return b
 }
 
+// ByHash returns a block by hash, on the best chain or stale.
+func (c *Chain) ByHash(h *chainhash.Hash) (*Block, bool) {
+	c.mu.Lock()
+	defer c.mu.Unlock()
+	b, ok := c.byHash[*h]
+	return b, ok
+}
+
+// Reorg atomically replaces the top `depth` blocks by `n` new empty blocks
+// (what a node does when a heavier branch arrives: observers see the old or
+// the new best chain, never a state in between).  It returns the removed
+// blocks (tip first) and the new ones (lowest first).
+func (c *Chain) Reorg(depth, n int) (removed, added []*Block) {
+	return c.ReorgTxs(depth, make([][]*wire.MsgTx, n))
+}
+
+// ReorgTxs is Reorg with the transactions of each new block given.
+func (c *Chain) ReorgTxs(depth int, txs [][]*wire.MsgTx) (removed, added []*Block) {
+	n := len(txs)
+	c.mu.Lock()
+	defer c.mu.Unlock()
+	for i := 0; i < depth && len(c.blocks) > 1; i++ {
+		removed = append(removed, c.blocks[len(c.blocks)-1])
+		c.blocks = c.blocks[:len(c.blocks)-1]
+	}
+	for i := 0; i < n; i++ {
+		prev := c.blocks[len(c.blocks)-1]
+		t := prev.Time.Add(c.blockInterval)
+		c.nonce++
+		hdr := wire.BlockHeader{Version: 1, PrevBlock: prev.Hash, Timestamp: t, Nonce: c.nonce, Bits: 0x207fffff}
+		msg := wire.NewMsgBlock(&hdr)
+		for _, tx := range txs[i] {
+			_ = msg.AddTransaction(tx)
+			delete(c.Mempool, tx.TxHash())
+		}
+		b := &Block{Height: prev.Height + 1, Hash: hdr.BlockHash(), Time: t, Msg: msg}
+		c.blocks = append(c.blocks, b)
+		c.byHash[b.Hash] = b
+		added = append(added, b)
+	}
+	return removed, added
+}
+
 // Notify queues a notification for an attached wallet.
 func (c *Chain) Notify(n interface{}) { c.ntfns <- n }
 
